@@ -14,7 +14,10 @@ fn kind_for(scheme: &str, rng: &mut Rng) -> Kind {
 pub fn case_keys(scheme: &str, rng: &mut Rng) -> (Vec<Vec<u8>>, Kind) {
     let kind = kind_for(scheme, rng);
     let k0 = IndKey::gen(rng, kind);
-    let k1 = IndKey::gen(rng, kind);
+    let mut k1 = IndKey::gen(rng, kind);
+    while k1.public() == k0.public() {
+        k1 = IndKey::gen(rng, kind);
+    }
     let k2 = if scheme == "comb" {
         IndKey::gen(rng, if kind == Kind::Secp { Kind::Ed } else { Kind::Secp })
     } else {
